@@ -106,6 +106,12 @@ func (m *Mutation) Execute() error {
 	for scale := uint8(0); scale < m.d.GetMaxDownresLevel(); scale++ {
 		bm, err = m.d.StoreDownres(m.v, scale, bm)
 		if err != nil {
+			// the scales that will not be computed are no longer updating either
+			for s := scale; s < m.d.GetMaxDownresLevel(); s++ {
+				m.d.StopScaleUpdate(s + 1)
+			}
+			m.hiresCache = nil
+			m.Unlock()
 			return fmt.Errorf("mutation %d for data %q: %v", m.mutID, m.d.DataName(), err)
 		}
 		m.d.StopScaleUpdate(scale + 1)
